@@ -2,5 +2,6 @@
 # Maintenance helper: replay one patch (unified diff against /repo) on an in-memory overlay with every rule set.
 # Prints, per property, the findings the patch adds (NEW ...) or an analysis error. Nothing is written to /repo.
 cd /verif
+PYTHONHASHSEED=0; export PYTHONHASHSEED
 P="$1"
 for id in C01 C02 C03 C04 C05 C06 C07 C08 C09 C10 C11 C12 C13 C14 C15 C16 C17 C18 C19 C20; do echo $id; done | xargs -P 16 -I{} sh -c "/venv/bin/python -B -m cobralint.selftest --prop {} --patch '$P' 2>&1 | grep '^NEW\|rror' | cut -c1-260 | sed 's/^/[{}] /'"
